@@ -22,6 +22,7 @@ from .rules import c09 as C9
 from .rules import r4 as R4
 from .rules import r5 as R5
 from .rules import r6 as R6
+from .rules import r7 as R7
 
 TRUST = ('trusted: the CPython parser (ast), the callee resolver of sa/model.py (receiver roles, '
          'unique method names), Python list/str/re semantics as encoded in the rules; ')
@@ -37,7 +38,7 @@ def prop(pid, rules, explanation, level, note, technique, design_ref, assumption
 
 prop('C01',
      [PD.pd1, PD.pd2, PD.pd3, PD.pd4, PD.pd5, PD.pd8, SC.pd6, MI.pd0, MI.tx1, MI.df1, OK.ok4, EM.em1, AB.ab1, LS.ls1, LS.ls1_ml, LS.ls1_shell, LS.ls1w, AB.ab3, R2.okv,
-      T.sp3, R4.pd9, R5.em8, R5.pd10, R6.sc9],
+      T.sp3, R4.pd9, R5.em8, R5.pd10, R6.sc9, R7.tc1, R7.pd7b],
      'inductive argument from static rules: tokens outside the scanner are pinned, '
      'single-character or faithful copies (PD1, PD2, SP3), pinned positions are never shifted '
      'or spread (PD3, PD4), shared tokens are never re-stamped (PD5), the error mark is used '
@@ -55,7 +56,7 @@ prop('C01',
      'DESIGN.md 3.1, 3.2, 4 C01')
 
 prop('C02',
-     [SC.pd6, PD.pd1, PD.pd3, PD.pd4, PD.pd5, PD.pd8, MI.pd0, MI.tx1, T.sp3, LS.ls1, LS.ls1_ml, AB.ab3, R3.rs1, LS.ls1_shell, SC.vb1],
+     [SC.pd6, PD.pd1, PD.pd3, PD.pd4, PD.pd5, PD.pd8, MI.pd0, MI.tx1, T.sp3, LS.ls1, LS.ls1_ml, AB.ab3, R3.rs1, LS.ls1_shell, SC.vb1, R7.tx4],
      'copied text keeps its own offset: argument tokens are moved, never rewritten (PD5); a '
      'shortened token advances its position by the removed prefix, only if unpinned (PD4, '
      'PD3); replaced sequences are copy-form tokens at the position of the sequence (PD1, '
@@ -68,7 +69,7 @@ prop('C02',
      'DESIGN.md 3.1, 4 C02')
 
 prop('C03',
-     [MI.dt1, MI.ex2, MI.df1, PD.pd5, ST.ls2p, ST.at1, ST.ex1, RG.rg1, RG.rg2, R2.at2, SC.sc5, R3.rs1, R4.exw, R4.um1, R4.nm1, R4.st1, R4.sig1, R4.df2, R4.sbl1, R5.ex1c, SC.pd6, R5.em7, R6.sk1, SC.vb1, R6.reg1, R6.sc9],
+     [MI.dt1, MI.ex2, MI.df1, PD.pd5, ST.ls2p, ST.at1, ST.ex1, RG.rg1, RG.rg2, R2.at2, SC.sc5, R3.rs1, R4.exw, R4.um1, R4.nm1, R4.st1, R4.sig1, R4.df2, R4.sbl1, R5.ex1c, SC.pd6, R5.em7, R6.sk1, SC.vb1, R6.reg1, R6.sc9, R7.tc1, R7.sp6, R7.sb8, R3.sp5],
      'no markup class reaches the default emit and comments are dropped (DT1); an argument '
      'handed back for expansion is not expanded a second time by its handler (EX2: no '
      'duplicated footnotes); text of definition files never reaches the output, including '
@@ -82,7 +83,7 @@ prop('C03',
      'DESIGN.md 3.8 (DT1, EX1), 3.4 (DF1), 4 C03')
 
 prop('C04',
-     [PD.pd1, PD.pd2, PD.pd3, PD.pd5, PD.pd8, MI.pd0, ST.pd7, AB.ab1, AB.ab3, R4.pd9, C9.sb1, OK.ok2, R3.rs1, R5.pd10, PD.pd4, MI.df1],
+     [PD.pd1, PD.pd2, PD.pd3, PD.pd5, PD.pd8, MI.pd0, ST.pd7, AB.ab1, AB.ab3, R4.pd9, C9.sb1, OK.ok2, R3.rs1, R5.pd10, PD.pd4, MI.df1, R7.pd7b, R7.sb2c],
      'every generated token is pinned (PD1), re-stamped tokens are pinned (PD2), and bodies, '
      'defaults, glossary and cleveref replacements are copied before they are stamped (PD5)',
      'decides that generated text cannot spread or be re-mapped by a later use; not decided: '
@@ -93,7 +94,7 @@ prop('C04',
      'DESIGN.md 3.1, 4 C04')
 
 prop('C05',
-     [MO.ac1, MO.ac2, PD.pd4, PD.pd3, R3.tk1, R3.ml8, R3.sc7, R3.ac3, R4.ab5, RX.rp1, R5.um2, R6.em9, R6.sb6, R6.skp1],
+     [MO.ac1, MO.ac2, PD.pd4, PD.pd3, R3.tk1, R3.ml8, R3.sc7, R3.ac3, R4.ab5, RX.rp1, R5.um2, R6.em9, R6.sb6, R6.skp1, R7.fd1],
      'enabling invariants of the line-removal pass: every vanishing construct leaves an action '
      'token (or a paragraph token / visible text) on every path and substituted arguments are '
      'bracketed by action tokens (AC1); the skip-space set excludes paragraph tokens (AC2); a '
@@ -108,7 +109,7 @@ prop('C05',
      'DESIGN.md 3.8 (AC1, AC2), 4 C05')
 
 prop('C06',
-     [T.sp1, T.sp2, T.sp3, T.ix4, MI.pd0, SC.sp4, SC.pd6, R3.ix15, R3.ac3, PD.pd1, PD.pd5, R3.sc7, R4.nl1, ST.ls2p, R3.rs1, R5.dt1c, R5.tx3, LS.ls1, R6.opt1, R6.sc9],
+     [T.sp1, T.sp2, T.sp3, T.ix4, MI.pd0, SC.sp4, SC.pd6, R3.ix15, R3.ac3, PD.pd1, PD.pd5, R3.sc7, R4.nl1, ST.ls2p, R3.rs1, R5.dt1c, R5.tx3, LS.ls1, R6.opt1, R6.sc9, R7.sp6, SC.ix19],
      'static table and dispatch rules: the special-sequence table equals the documented one '
      'and contains nothing else that plain prose could hit (SP1), values are never longer '
      'than keys (SP3), longest match (SP2), tables well-formed (IX4)',
@@ -123,7 +124,7 @@ prop('C06',
      'DESIGN.md 3.8 (SP1-SP3), 3.6 (IX4), 4 C06')
 
 prop('C07',
-     [SC.pd6, T.ix4, ST.at1, RG.ix1, RG.ix2a, MO.ix2s, MO.ix6, MO.ix7, MO.ix8, MO.ix9, MO.ix10, MO.pg1, MI.tx1, R3.sp5, R3.ix11, R3.ix12, R3.ix13, R3.ix15, R4.ix16, MO.ml2, ST.ex1, R5.ix17, R6.und1, SC.ix19, R6.ix18],
+     [SC.pd6, T.ix4, ST.at1, RG.ix1, RG.ix2a, MO.ix2s, MO.ix6, MO.ix7, MO.ix8, MO.ix9, MO.ix10, MO.pg1, MI.tx1, R3.sp5, R3.ix11, R3.ix12, R3.ix13, R3.ix15, R4.ix16, MO.ml2, ST.ex1, R5.ix17, R6.und1, SC.ix19, R6.ix18, R7.lc5, R3.rs1, MI.df1, R7.ix20, R7.fd1],
      'progress of the scanner on every path (PD6: the scan position strictly increases, with '
      'bounds of next()/find() results), well-formed tables (IX4)',
      'decides termination of the scanner and table well-formedness; further index-safety rules '
@@ -134,7 +135,7 @@ prop('C07',
      'DESIGN.md 3.6, 4 C07')
 
 prop('C08',
-     [EM.em1, EM.em2, EM.em3, R2.em4, AB.ab1, OK.ok1, SC.sc5, R3.rs1, R4.em5, MI.dt1, R4.em6, R4.st1, MI.ex2, R5.pair1, R5.em7, R5.em8, R6.sk1, PS.ps1, R6.em9],
+     [EM.em1, EM.em2, EM.em3, R2.em4, AB.ab1, OK.ok1, SC.sc5, R3.rs1, R4.em5, MI.dt1, R4.em6, R4.st1, MI.ex2, R5.pair1, R5.em7, R5.em8, R6.sk1, PS.ps1, R6.em9, ST.at1],
      'the mark is used whole (EM1), is produced only together with a diagnostic (EM2), and '
      'recovery pushes the consumed tokens back (EM3)',
      'decides the structural clauses "complete mark", "never a mark without diagnostic", '
@@ -146,7 +147,7 @@ prop('C08',
      'DESIGN.md 3.7, 4 C08')
 
 prop('C09',
-     [C9.sb1, C9.sb2, C9.sb3, C9.sb4, C9.sb5, ST.pd7, PD.pd5, MI.df1, MO.ix6, R3.ix12, MI.uk, R3.rs1, R4.sc8, R4.sb2b, ST.at1, R2.at2, R4.um1, R4.en1, R4.exw, R4.st1, R4.sbl1, PS.ps1, R4.sh1, R6.memo1, R6.lp1, R6.sb6],
+     [C9.sb1, C9.sb2, C9.sb3, C9.sb4, C9.sb5, ST.pd7, PD.pd5, MI.df1, MO.ix6, R3.ix12, MI.uk, R3.rs1, R4.sc8, R4.sb2b, ST.at1, R2.at2, R4.um1, R4.en1, R4.exw, R4.st1, R4.sbl1, PS.ps1, R4.sh1, R6.memo1, R6.lp1, R6.sb6, R6.sb7, R7.sb8, R7.sb2c],
      'structural clauses only: the substitution loop replaces #k by the complete k-th argument and '
      'copies every other body token once, in order (SB1); one argument per code, defaults at the '
      'index of the code (SB2); \\newcommand / \\def register unconditionally under the literal name '
@@ -168,7 +169,7 @@ prop('C09',
      'DESIGN.md 3.8, 4 C09')
 
 prop('C10',
-     [MT.mt1, MT.mt2, MT.mt5, R2.mt6, R2.mt7, R2.mt8, MI.ex2, MI.lc1, PS.ps3, T.mt4, PD.pd1, R3.ix14, MO.ml2, R3.tk1, PD.pd5, R4.sh1, R4.nm1, MI.dt1, ST.ex1, R5.mt4b, MI.ml6, R4.lt2, R6.spc1, R6.opt1, R6.lt3],
+     [MT.mt1, MT.mt2, MT.mt5, R2.mt6, R2.mt7, R2.mt8, MI.ex2, MI.lc1, PS.ps3, T.mt4, PD.pd1, R3.ix14, MO.ml2, R3.tk1, PD.pd5, R4.sh1, R4.nm1, MI.dt1, ST.ex1, R5.mt4b, MI.ml6, R4.lt2, R6.spc1, R6.opt1, R6.lt3, R7.sb2c],
      'rotation state: an argument is expanded once (EX2: formulas inside handler arguments '
      'consume one placeholder), collections are per language and looked up at the time of use '
      '(LC1), punctuation entries are single characters (MT4), generated tokens pinned (PD1)',
@@ -200,7 +201,7 @@ prop('C11',
      'DESIGN.md 3.8 (MT1-MT5), 4 C11')
 
 prop('C12',
-     [LS.ls1_ml, MO.ml2, R2.ml4, R2.lc2, MI.ml6, MI.lc1, ST.ex1, OK.ok4, R2.okv, R3.ml7, R3.ml8, R4.acc1, R4.sh1, R4.lt1, R4.lt2, LS.ls1_shell, OK.ok2, R5.sbl2, R5.lc4, R6.ml10, R6.lt3, R6.la1, R6.skp1],
+     [LS.ls1_ml, MO.ml2, R2.ml4, R2.lc2, MI.ml6, MI.lc1, ST.ex1, OK.ok4, R2.okv, R3.ml7, R3.ml8, R4.acc1, R4.sh1, R4.lt1, R4.lt2, LS.ls1_shell, OK.ok2, R5.sbl2, R5.lc4, R6.ml10, R6.lt3, R6.la1, R6.skp1, R7.ml11, R7.ix20],
      'text and map of every language section stay in lock step through sectioning, joining '
      'and placeholder insertion (LS1m)',
      'decides only the lock-step clause of C12 so far',
@@ -210,7 +211,7 @@ prop('C12',
      'DESIGN.md 3.2, 4 C12')
 
 prop('C13',
-     [LS.ls1, AB.ab3, R2.okv, RX.rp1, R2.ps5, R3.rp2, R3.rx5, R4.rx6, MO.ln1, LS.ls1_ml, R4.rx7, R5.ab3r, R6.ln2],
+     [LS.ls1, AB.ab3, R2.okv, RX.rp1, R2.ps5, R3.rp2, R3.rx5, R4.rx6, MO.ln1, LS.ls1_ml, R4.rx7, R5.ab3r, R6.ln2, R7.rx8, R7.lc5, R7.fd1],
      'equal lengths after substitution for every combination of shorter / equal / longer '
      'replacement (LS1 on substitute and replace_phrases)',
      'decides the equal-length clause; more clauses follow',
@@ -219,7 +220,7 @@ prop('C13',
      'DESIGN.md 3.2, 4 C13')
 
 prop('C14',
-     [OK.ok1, OK.ok2, OK.ok4, R2.th3, R2.okv, LS.ls1_shell, AB.ab2, MI.oks, PS.ps1, R3.ok6, R3.ml7, R3.ix13, R2.cm2, R4.ml9, R5.tx2, MO.ln1, MO.ml2, AB.ab3, LS.ls1, R2.ml4, R5.un1, R6.lt3, R6.lb1],
+     [OK.ok1, OK.ok2, OK.ok4, R2.th3, R2.okv, LS.ls1_shell, AB.ab2, MI.oks, PS.ps1, R3.ok6, R3.ml7, R3.ix13, R2.cm2, R4.ml9, R5.tx2, MO.ln1, MO.ml2, AB.ab3, LS.ls1, R2.ml4, R5.un1, R6.lt3, R6.lb1, R7.rx8, R7.ml11, R7.tx4, PD.pd4, MI.ml6, R7.fd1],
      'the chain part offset -> total offset -> LaTeX offset -> line / column: every match of a '
      'part is shifted once by the text accumulated before it (OK2), the accumulated text and map '
      'stay in lock step incl. delimiter padding (LS1s), map entries are read through abs() and '
@@ -235,7 +236,7 @@ prop('C14',
      'DESIGN.md 3.2, 4 C14')
 
 prop('C15',
-     [TJ.tj1, TJ.tj2, TJ.tj3, AB.ab2, MI.oks, R2.okv, R3.ix13, R4.tj4, R4.tj5, R4.th8, OK.ok1, R4.en2, R5.tj6, R5.tj7, R3.rx5, R6.und1, TH.th10],
+     [TJ.tj1, TJ.tj2, TJ.tj3, AB.ab2, MI.oks, R2.okv, R3.ix13, R4.tj4, R4.tj5, R4.th8, OK.ok1, R4.en2, R5.tj6, R5.tj7, R3.rx5, R6.und1, TH.th10, R6.ln3, R7.tj8, MI.df1],
      'every access to answer data is type-checked through json_get or validated at source '
      '(TJ1, interprocedural taint from JSONDecoder.decode through parameters, callbacks, '
      'tuples and attributes), decoding is guarded (TJ2), the error path is one diagnostic and '
@@ -249,7 +250,7 @@ prop('C15',
      'DESIGN.md 3.4, 3.2 (AB2), 4 C15')
 
 prop('C16',
-     [TH.th1, TH.th2, R2.th3, R2.th4, R2.cm2, MO.ln1, R3.rx5, R3.ix13, R3.cm3, R3.th6, R4.th8, OK.ok2, R4.ps6, R4.th7, R5.tx2, R5.th9, R6.und1, R6.lb1],
+     [TH.th1, TH.th2, R2.th3, R2.th4, R2.cm2, MO.ln1, R3.rx5, R3.ix13, R3.cm3, R3.th6, R4.th8, OK.ok2, R4.ps6, R4.th7, R5.tx2, R5.th9, R6.und1, R6.lb1, R6.ln3, R7.rx8],
      'escaping exactly once for all sources the property names, by a three-valued taint '
      '(raw / escaped-or-markup / mixed) through concatenations, helper functions, re.sub '
      'callbacks and result tuples; protect_html checked as a table (TH1); each match '
@@ -266,7 +267,7 @@ prop('C16',
      'DESIGN.md 3.4 (TH1, TH2), 3.2 (LS2), 4 C16')
 
 prop('C18',
-     [ST.ex1, ST.wl1, ST.ls2p, MI.dt1, MI.df1, R2.cm2, SC.sc5, R3.rs1, R4.exw, R4.df2, R4.rx7, R4.sh3, R5.ex1c, R5.sh3b, SC.vb1, R6.reg1],
+     [ST.ex1, ST.wl1, ST.ls2p, MI.dt1, MI.df1, R2.cm2, SC.sc5, R3.rs1, R4.exw, R4.df2, R4.rx7, R4.sh3, R5.ex1c, R5.sh3b, SC.vb1, R6.reg1, SC.pd6, R5.tx3, R7.fd1],
      'init_extractions rewrites every macro and extracts the first mandatory argument, the main '
      'text is dropped, flows are appended once in order (EX1); the work list takes one name per '
      'iteration, records it exactly as tested after the done / skip test, and adds only names '
@@ -281,7 +282,7 @@ prop('C18',
      'DESIGN.md 3.8 (EX1, WL1), 4 C18')
 
 prop('C19',
-     [MI.uk, R2.uk5, SC.sc5, PS.ps1, R3.sp5, R3.mc1, R3.rs1, R4.um1, R4.sh1, R4.exw, R4.acc1, R4.st1, R5.uk7, R6.memo1, R6.lp1, R6.cl1, R6.sk1, R3.sc7, R3.cm3, R6.reg1],
+     [MI.uk, R2.uk5, SC.sc5, PS.ps1, R3.sp5, R3.mc1, R3.rs1, R4.um1, R4.sh1, R4.exw, R4.acc1, R4.st1, R5.uk7, R6.memo1, R6.lp1, R6.cl1, R6.sk1, R3.sc7, R3.cm3, R6.reg1, R6.sb7, R7.tc1, R7.sp6],
      'recorded only when undeclared at the time of use, only in text mode, once, reset per '
      'document, printed one per line (UK); what is declared does not depend on earlier calls '
      '(PS1)',
@@ -310,7 +311,7 @@ prop('C20',
      'DESIGN.md 3.8 (CK1-CK3), 3.2 (AB4), 4 C20')
 
 prop('C17',
-     [PS.ps1, PS.ps2, PS.ps3, R2.ps5, R4.ps6, R5.pair1, R6.ps7],
+     [PS.ps1, PS.ps2, PS.ps3, R2.ps5, R4.ps6, R5.pair1, R6.ps7, R7.nd1],
      'nothing reachable from the per-document entry points writes to an object that outlives '
      'the call: whole-program field-based may-alias analysis of persistent allocation sites '
      '(module level, class level, default arguments, cache decorators) against every in-place '
